@@ -1,5 +1,6 @@
 import PepperProofs.CompEmit
 import PepperModel.Denote
+import PepperProofs.CompOpt
 /-!
 # The compile path agrees with the specification `Denote.denoteComp` (C01, part D)
 
@@ -146,4 +147,865 @@ theorem clean_sound {p : String} {s : St} {a : Nat} {env : Env} {o : Out} (hw : 
         rw [hsegs hbs] at this
         exact congrArg (acc.segs ++ ·) this.symm
 
+/-! ### closed form of the specification's region pass -/
+
+theorem anon_full_name (p : String) (k : Nat) : p ++ "_Anon" ++ toString k = p ++ anonName k := by
+  simp [anonName, String.append_assoc]
+
+def segsFrom (p : String) (k : Nat) : List CItem → List (List Nuc)
+  | [] => []
+  | .obj _ bs :: r => cnucs p bs :: segsFrom p k r
+  | .nuc q :: r => fwd (p ++ anonName k) (fixedSum q) :: segsFrom p (k + 1) r
+
+def domsFrom (p : String) (idx k : Nat) : List CItem → List (Nat × String × List Char)
+  | [] => []
+  | .obj _ _ :: r => domsFrom p (idx + 1) k r
+  | .nuc q :: r => (idx, p ++ anonName k, expand 0 q) :: domsFrom p (idx + 1) (k + 1) r
+
+@[simp] theorem segsFrom_length (p : String) (k : Nat) (cs : List CItem) : (segsFrom p k cs).length = cs.length := by
+  induction cs generalizing k with
+  | nil => rfl
+  | cons c r ih => cases c <;> simp [segsFrom, ih]
+
+theorem denoteC_wildFree (p : String) {cs : List CItem} (hf : wildFree cs = true) (A : ItemsAcc) :
+    denoteC p cs A = .ok { A with segs := A.segs ++ segsFrom p A.anon cs,
+                                  newDomains := A.newDomains ++ domsFrom p A.segs.length A.anon cs,
+                                  anon := A.anon + nucCount cs } := by
+  induction cs generalizing A with
+  | nil => simp [denoteC, segsFrom, domsFrom, nucCount]
+  | cons c r ih =>
+    cases c with
+    | obj i bs =>
+      simp only [wildFree] at hf
+      simp only [denoteC, ih hf]
+      simp [segsFrom, domsFrom, nucCount]
+    | nuc q =>
+      simp only [wildFree, Bool.and_eq_true, beq_iff_eq] at hf
+      simp only [denoteC, resolve_none_of_zero hf.1, ih hf.2, anon_full_name]
+      simp [segsFrom, domsFrom, nucCount, Nat.add_assoc, Nat.add_comm 1]
+
+theorem denoteC_append (p : String) {x y : List CItem} {A A1 : ItemsAcc} (h : denoteC p x A = .ok A1) :
+    denoteC p (x ++ y) A = denoteC p y A1 := by
+  induction x generalizing A with
+  | nil => simp [denoteC] at h; subst h; rfl
+  | cons c r ih =>
+    cases c with
+    | obj i bs => simp only [List.cons_append, denoteC] at h ⊢; exact ih h
+    | nuc q =>
+      simp only [List.cons_append, denoteC] at h ⊢
+      cases hr : resolve q none with
+      | ok v => obtain ⟨l, c⟩ := v; simp only [hr] at h ⊢; exact ih h
+      | error e =>
+        cases e with
+        | wildNoLength =>
+          simp only [hr] at h ⊢
+          split
+          · rename_i hw; simp [hw] at h
+          · rename_i hw; simp only [hw, Bool.false_eq_true, if_false] at h; exact ih h
+        | tooManyWild => simp [hr] at h
+        | mismatch => simp [hr] at h
+        | tooShort => simp [hr] at h
+
+theorem domsFrom_snd (p : String) (idx k : Nat) (cs : List CItem) :
+    (domsFrom p idx k cs).map (·.2) = (anonsFrom k cs).map (fun e => (p ++ e.name, e.const)) := by
+  induction cs generalizing idx k with
+  | nil => rfl
+  | cons c r ih => cases c <;> simp [domsFrom, anonsFrom, ih, mkAnon]
+
+theorem domsFrom_idx (p : String) (idx k : Nat) (cs : List CItem) :
+    ∀ d ∈ domsFrom p idx k cs, idx ≤ d.1 ∧ d.1 < idx + cs.length := by
+  induction cs generalizing idx k with
+  | nil => simp [domsFrom]
+  | cons c r ih =>
+    cases c with
+    | obj i bs =>
+      intro d hd
+      have := ih (idx + 1) k d (by simpa [domsFrom] using hd)
+      simp only [List.length_cons]; omega
+    | nuc q =>
+      intro d hd
+      simp only [domsFrom, List.mem_cons] at hd
+      rcases hd with rfl | hd
+      · simp
+      · have := ih (idx + 1) (k + 1) d hd
+        simp only [List.length_cons]; omega
+
+theorem domsFrom_length (p : String) (idx k : Nat) (cs : List CItem) : (domsFrom p idx k cs).length = nucCount cs := by
+  induction cs generalizing idx k with
+  | nil => rfl
+  | cons c r ih => cases c <;> simp [domsFrom, nucCount, ih]
+
+theorem segsFrom_lens (p : String) (k : Nat) (cs : List CItem)
+    (h : ∀ i bs, CItem.obj i bs ∈ cs → (bs.map (·.len)).sum = i.len) :
+    ((segsFrom p k cs).map List.length).sum = lenSum cs := by
+  induction cs generalizing k with
+  | nil => rfl
+  | cons c r ih =>
+    cases c with
+    | obj i bs =>
+      simp only [segsFrom, lenSum, List.map_cons, List.sum_cons, cnucs_length, h i bs (by simp),
+        ih k (fun j b hj => h j b (List.mem_cons_of_mem _ hj))]
+    | nuc q =>
+      simp only [segsFrom, lenSum, List.map_cons, List.sum_cons, fwd_length,
+        ih (k + 1) (fun j b hj => h j b (List.mem_cons_of_mem _ hj))]
+
+theorem setAt_middle {α} (A B : List α) (x y : α) : setAt (A ++ x :: B) A.length y = A ++ y :: B := by
+  simp [setAt]
+
+/-- `Denote.denoteRegion` on cleaned items -/
+def denoteRegionC (p : String) (anon : Nat) (cs : List CItem) (length : Option Nat) :
+    Except Denote.Err (List (List Nuc) × List (String × List Char) × Nat) := do
+  let a ← denoteC p cs { anon := anon }
+  let fixedLen := (a.segs.map List.length).sum
+  match a.wild with
+  | none =>
+    match length with
+    | some l => if l != fixedLen then throw .length
+    | none => pure ()
+    pure (a.segs, a.newDomains.map (·.2), a.anon)
+  | some (i, parts) =>
+    match length with
+    | none => throw .wildcard
+    | some l =>
+      if l < fixedLen then throw .length
+      match resolve parts (some (l - fixedLen)) with
+      | .error _ => throw .length
+      | .ok (wl, c) =>
+        let name := p ++ "_Anon" ++ toString a.anon
+        let k := (a.newDomains.filter (fun d => d.1 < i)).length
+        let doms := a.newDomains.map (·.2)
+        pure (setAt a.segs i (fwd name wl), doms.take k ++ (name, c) :: doms.drop k, a.anon + 1)
+
+theorem denoteRegion_eq {p : String} {s : St} {a : Nat} {env : Env} {o : Out} (hw : WF s a) (hA : Agree p s env o a)
+    {items : List SrcItem} (hn : itemNamesOk items = true) {cs : List CItem}
+    (hc : cleanConst s items = .ok cs) (len : Option Nat) :
+    denoteRegion p env items len = denoteRegionC p a cs len := by
+  simp only [denoteRegion, denoteRegionC, clean_sound hw hA hn hc, hA.anon]
+  rfl
+
+def sgSegs (p : String) (sg : Segs) : List (List Nuc) := sg.flatMap (fun x => segsFrom p x.1 x.2)
+def sgDoms (p : String) (sg : Segs) : List (String × List Char) := (sgAnons sg).map (fun e => (p ++ e.name, e.const))
+
+theorem denoteRegionC_shape {p : String} {a : Nat} {cs : List CItem} {len : Option Nat} {sg : Segs}
+    (hs : SgShape a cs len sg) (hobj : ∀ i bs, CItem.obj i bs ∈ cs → (bs.map (·.len)).sum = i.len) :
+    denoteRegionC p a cs len = .ok (sgSegs p sg, sgDoms p sg, a + nucCount cs) := by
+  rcases hs with ⟨hf, hlen, rfl⟩ | ⟨pre, w, post, L, rfl, hpre, hw, hpost, rfl, hle, rfl⟩
+  · simp only [denoteRegionC, denoteC_wildFree p hf, bind, Except.bind, List.nil_append, List.length_nil,
+      segsFrom_lens p a cs hobj, domsFrom_snd]
+    rcases hlen with rfl | rfl
+    · simp [sgSegs, sgDoms, sgAnons, pure, Except.pure]
+    · simp [sgSegs, sgDoms, sgAnons, pure, Except.pure, bind, Except.bind]
+  · have h1 := denoteC_wildFree p hpre { anon := a }
+    have hwstep : resolve w none = .error .wildNoLength := resolve_none_of_one hw
+    have hnf : wildFree (pre ++ CItem.nuc w :: post) = false := by simp [wildFree, hw]
+    unfold denoteRegionC
+    rw [denoteC_append p h1]
+    simp only [denoteC, hwstep, Option.isSome_none, Bool.false_eq_true, if_false, List.nil_append, List.length_nil]
+    rw [denoteC_wildFree p hpost]
+    simp only [bind, Except.bind, segsFrom_length, List.length_append, List.length_cons, List.length_nil]
+    have hsum : (List.map List.length (segsFrom p a pre ++ [[]] ++ segsFrom p (a + nucCount pre) post)).sum =
+        lenSum pre + lenSum post := by
+      simp only [List.map_append, List.sum_append, List.map_cons, List.map_nil, List.length_nil, List.sum_cons,
+        List.sum_nil, segsFrom_lens p _ pre (fun i bs h => hobj i bs (by simp [h])),
+        segsFrom_lens p _ post (fun i bs h => hobj i bs (by simp [h]))]
+      omega
+    have hlt : ¬ L < lenSum pre + lenSum post := by omega
+    have hres := resolve_some_of_one hw (L := L - (lenSum pre + lenSum post)) (by omega)
+    have hD1 : (domsFrom p 0 a pre).filter (fun d => decide (d.fst < pre.length)) = domsFrom p 0 a pre :=
+      List.filter_eq_self.mpr (fun d hd => by have := domsFrom_idx p 0 a pre d hd; simp; omega)
+    have hD2 : (domsFrom p (pre.length + (0 + 1)) (a + nucCount pre) post).filter (fun d => decide (d.fst < pre.length)) = [] :=
+      List.filter_eq_nil_iff.mpr (fun d hd => by have := domsFrom_idx p _ _ post d hd; simp; omega)
+    have hl1 : (List.map (fun x => x.snd) (domsFrom p 0 a pre)).length = nucCount pre := by
+      simp [domsFrom_length]
+    have htake : List.take (nucCount pre) (List.map (fun x => x.snd) (domsFrom p 0 a pre ++
+        domsFrom p (pre.length + (0 + 1)) (a + nucCount pre) post)) =
+        List.map (fun x => x.snd) (domsFrom p 0 a pre) := by
+      rw [List.map_append]; exact List.take_left' hl1
+    have hdrop : List.drop (nucCount pre) (List.map (fun x => x.snd) (domsFrom p 0 a pre ++
+        domsFrom p (pre.length + (0 + 1)) (a + nucCount pre) post)) =
+        List.map (fun x => x.snd) (domsFrom p (pre.length + (0 + 1)) (a + nucCount pre) post) := by
+      rw [List.map_append]; exact List.drop_left' hl1
+    simp only [hsum, hlt, if_false, hres, List.filter_append, hD1, hD2, List.append_nil, domsFrom_length,
+      pure, Except.pure, anon_full_name, hnf, Bool.false_eq_true, htake, hdrop]
+    have hset : ∀ y, setAt (segsFrom p a pre ++ [[]] ++ segsFrom p (a + nucCount pre) post) pre.length y =
+        segsFrom p a pre ++ y :: segsFrom p (a + nucCount pre) post := by
+      intro y
+      have := setAt_middle (segsFrom p a pre) (segsFrom p (a + nucCount pre) post) [] y
+      simpa using this
+    rw [hset]
+    have hfx : fixedSum w + (L - (lenSum pre + lenSum post) - fixedSum w) * 1 = L - (lenSum pre + lenSum post) := by omega
+    simp only [sgSegs, sgDoms, sgAnons, segsFrom, anonsFrom, domsFrom_snd, List.flatMap_cons, List.flatMap_nil,
+      List.append_nil, fixedSum_explicit, hw, hfx, expand_explicit, List.map_append, List.map_cons, List.map_nil,
+      mkAnon, nucCount_append, nucCount, List.cons_append, List.nil_append, List.append_assoc]
+    congr 3
+    omega
+/-! ### segments, semantically -/
+
+theorem buildSuper_anon {a : Nat} {cs : List CItem} {len : Option Nat} {b : Built}
+    (h : buildSuper a cs len = .ok b) : b.anon = a + nucCount cs := by
+  rcases buildSuper_ok_cases h with ⟨_, _, rfl⟩ | ⟨pre, w, post, L, rfl, _, _, _, _, _, rfl⟩
+  · rfl
+  · simp [nucCount]; omega
+
+theorem fwd_eq_cnucs (p n : String) (l : Nat) : fwd (p ++ n) l = cnucs p [⟨n, false, l⟩] := by
+  simp [cnucs, nucsB]
+
+theorem seg_segs {l' : List SeqE} {k : Nat} {cs : List CItem} (h : SegOk l' k cs) (p : String) :
+    segsFrom p k cs = (refsFrom k cs).map (itemNucs p l') := by
+  induction cs generalizing k with
+  | nil => rfl
+  | cons c r ih =>
+    cases c with
+    | obj i bs =>
+      obtain ⟨ie, h1, _, h3⟩ := h.objs i bs (by simp)
+      simp only [segsFrom, refsFrom, List.map_cons, ih h.tail_obj]
+      simp [itemNucs, viewBases, h1, h3]
+    | nuc q =>
+      have := h.anons (mkAnon k (fixedSum q) (expand 0 q)) (by simp [anonsFrom])
+      simp only [mkAnon] at this
+      simp only [segsFrom, refsFrom, List.map_cons, ih h.tail_nuc]
+      simp [itemNucs, viewBases, this, basesOfView, fwd_eq_cnucs]
+
+theorem seg_flatten (p : String) (k : Nat) (cs : List CItem) :
+    (segsFrom p k cs).flatten = cnucs p (basesFrom k cs) := by
+  induction cs generalizing k with
+  | nil => rfl
+  | cons c r ih => cases c <;> simp [segsFrom, basesFrom, ih, fwd_eq_cnucs]
+
+theorem sg_segs {l' : List SeqE} {sg : Segs} (h : ∀ x ∈ sg, SegOk l' x.1 x.2) (p : String) :
+    sgSegs p sg = (sgRefs sg).map (itemNucs p l') := by
+  induction sg with
+  | nil => rfl
+  | cons x r ih =>
+    simp only [sgSegs, sgRefs, List.flatMap_cons, List.map_append] at ih ⊢
+    rw [seg_segs (h x (by simp)), ih (fun y hy => h y (by simp [hy]))]
+
+theorem sg_flatten (p : String) (sg : Segs) : (sgSegs p sg).flatten = cnucs p (sgBases sg) := by
+  induction sg with
+  | nil => rfl
+  | cons x r ih =>
+    simp only [sgSegs, sgBases, List.flatMap_cons, List.flatten_append, cnucs_append] at ih ⊢
+    rw [seg_flatten, ih]
+
+theorem region_denote {p : String} {s : St} {a : Nat} {env : Env} {o : Out} (hw : WF s a) (hA : Agree p s env o a)
+    {items : List SrcItem} (hn : itemNamesOk items = true) {len : Option Nat} {cs : List CItem} {b : Built} {sg : Segs}
+    (R : RegionNF s a items len cs b sg) :
+    denoteRegion p env items len = .ok (sgSegs p sg, sgDoms p sg, b.anon) := by
+  rw [denoteRegion_eq hw hA hn R.clean, denoteRegionC_shape R.shape, buildSuper_anon R.build]
+  intro i bs hi
+  obtain ⟨ie, h1, h2, h3⟩ := cleanConst_ok hw.seqs.entries R.clean i bs hi
+  rw [h3, view_lens (hw.seqs.entries ie (findE_some h1).1), h2]
+
+/-! ### the agreement invariant under growth of the table -/
+
+theorem itemNucs_mono {p : String} {l l' : List SeqE} (h : Ext l l') {i : ItemRef} (hi : ItemOk l i) :
+    itemNucs p l' i = itemNucs p l i := by
+  simp only [itemNucs, viewBases_mono h hi]
+
+theorem map_itemNucs_mono {p : String} {l l' : List SeqE} (h : Ext l l') {its : List ItemRef} (hi : ∀ i ∈ its, ItemOk l i) :
+    its.map (itemNucs p l') = its.map (itemNucs p l) :=
+  List.map_congr_left (fun i hm => itemNucs_mono h (hi i hm))
+
+theorem agree_seqs_ext {p : String} {s : St} {a : Nat} {env : Env} {o : Out} (hw : WF s a) (hA : Agree p s env o a)
+    {l' : List SeqE} (hext : Ext s.seqs l') :
+    ∀ n b, env.seqs.lookup n = some b → ∃ e, findE l' n = some e ∧ cnucs p e.bases = b.nucs ∧
+      e.isSup = b.isSup ∧ (b.isSup = true → e.items.map (itemNucs p l') = b.segs) := by
+  intro n b hl
+  obtain ⟨e, h1, h2, h3, h4⟩ := hA.seqs n b hl
+  refine ⟨e, hext _ _ h1, h2, h3, fun hb => ?_⟩
+  rw [map_itemNucs_mono hext ((hw.seqs.entries e (findE_some h1).1).sup (h3.trans hb)).1]
+  exact h4 hb
+
+theorem agree_strands_ext {p : String} {s : St} {a : Nat} {env : Env} {o : Out} (hw : WF s a) (hA : Agree p s env o a)
+    {l' : List SeqE} (hext : Ext s.seqs l') :
+    ∀ n x, env.strands.lookup n = some x → ∃ t, findT s.strands n = some t ∧ cnucs p t.bases = x.1 ∧
+      t.items.map (itemNucs p l') = x.2 := by
+  intro n x hl
+  obtain ⟨t, h1, h2, h3⟩ := hA.strands n x hl
+  refine ⟨t, h1, h2, ?_⟩
+  rw [map_itemNucs_mono hext (hw.strands t (findT_some h1).1).items]
+  exact h3
+/-! ### lock step, statement by statement -/
+
+theorem lookup_none_of_findE {p : String} {s : St} {a : Nat} {env : Env} {o : Out} (hA : Agree p s env o a)
+    {n : String} (h : findE s.seqs n = none) : env.seqs.lookup n = none := by
+  cases hl : env.seqs.lookup n with
+  | none => rfl
+  | some b => obtain ⟨e, he, _⟩ := hA.seqs n b hl; rw [h] at he; simp at he
+
+theorem step_seq_base {p : String} {s : St} {a : Nat} {env : Env} {o : Out} (hw : WF s a) (hA : Agree p s env o a)
+    {name : String} (hname : okName name = true) (hf : findE s.seqs name = none) {text : List Char} {len : Option Nat}
+    {l : Nat} {c : List Char} (hr : resolve (parseQuoted text) len = .ok (l, c)) :
+    ∃ env' o', denoteStmt p env o (.seq name [.nuc text] len) = .ok (env', o') ∧
+      Agree p { s with seqs := s.seqs ++ [baseEntry name l c] } env' o' a := by
+  have hl := lookup_none_of_findE hA hf
+  have hext : Ext s.seqs (s.seqs ++ [baseEntry name l c]) := Ext.append _ _
+  refine ⟨_, _, by simp only [denoteStmt, hl, Option.isSome_none, Bool.false_eq_true, if_false, hr]; rfl, ?_⟩
+  refine ⟨hA.anon, ?_, ?_, ?_, hA.strandsNone, ?_, ?_, ?_, ?_, ?_, ?_⟩
+  · intro n b hb
+    simp only [List.lookup_append, Option.or_eq_some_iff] at hb
+    rcases hb with hb | ⟨hb1, hb2⟩
+    · exact agree_seqs_ext hw hA hext n b hb
+    · simp only [List.lookup_cons, List.lookup_nil] at hb2
+      split at hb2
+      · rename_i heq
+        have hn : n = name := by simpa using heq
+        subst hn
+        simp only [Option.some.injEq] at hb2
+        subst hb2
+        refine ⟨baseEntry n l c, ?_, ?_, rfl, fun h => by simp at h⟩
+        · rw [findE_append_of_none hf]; simp [findE]
+        · simp [fwd_eq_cnucs]
+      · simp at hb2
+  · intro n hn hb
+    simp only [List.lookup_append, Option.or_eq_none_iff] at hb
+    have hne : n ≠ name := by
+      intro h; subst h; simp at hb
+    rw [findE_append_of_none (hA.seqsNone n hn hb.1)]
+    simp [findE, Ne.symm hne]
+  · exact agree_strands_ext hw hA hext
+  all_goals (by_cases hz : l = 0 <;> simp [hz, St.baseSeqs, St.supSeqs, List.filter_append, hA.domains, hA.baseSeqs, hA.supSeqs, hA.ostrands, hA.structs, hA.kinetics, fwd_eq_cnucs])
+
+/-- the anonymous entries as the specification lists them -/
+theorem anons_domains (p : String) (AN : List SeqE) (h : ∀ e ∈ AN, e.const.length = e.len) :
+    (AN.filter (·.len != 0)).map (fun e => (p ++ e.name, e.const)) =
+      (AN.map (fun e => (p ++ e.name, e.const))).filter (fun d => d.2.length != 0) := by
+  induction AN with
+  | nil => rfl
+  | cons e r ih =>
+    have he := h e (by simp)
+    have ih' := ih (fun x hx => h x (by simp [hx]))
+    simp only [List.filter_cons, List.map_cons, he]
+    split <;> simp [ih']
+
+theorem anons_baseSeqs (p : String) (AN : List SeqE)
+    (h : ∀ e ∈ AN, e.const.length = e.len ∧ e.bases = [⟨e.name, false, e.len⟩]) :
+    (AN.filter (·.len != 0)).map (fun e => (p ++ e.name, cnucs p e.bases)) =
+      ((AN.map (fun e => (p ++ e.name, e.const))).filter (fun d => d.2.length != 0)).map
+        (fun d => (d.1, fwd d.1 d.2.length)) := by
+  induction AN with
+  | nil => rfl
+  | cons e r ih =>
+    obtain ⟨h1, h2⟩ := h e (by simp)
+    have ih' := ih (fun x hx => h x (by simp [hx]))
+    simp only [List.filter_cons, List.map_cons, h1]
+    split <;> simp [ih', h1, h2, fwd_eq_cnucs]
+
+theorem withNewDomains_eq (o : Out) (doms : List (String × List Char)) :
+    withNewDomains o doms = { o with domains := o.domains ++ doms.filter (fun d => d.2.length != 0),
+                                     baseSeqs := o.baseSeqs ++ (doms.filter (fun d => d.2.length != 0)).map
+                                        (fun d => (d.1, fwd d.1 d.2.length)) } := rfl
+
+theorem step_seq_sup {p : String} {s : St} {a : Nat} {env : Env} {o : Out} (hw : WF s a) (hA : Agree p s env o a)
+    {name : String} (hname : okName name = true) {items : List SrcItem} (hn : itemNamesOk items = true)
+    (hne : ∀ text, items ≠ [.nuc text]) (hf : findE s.seqs name = none)
+    {len : Option Nat} {cs : List CItem} {b : Built} {sg : Segs} (R : RegionNF s a items len cs b sg) :
+    ∃ env' o', denoteStmt p env o (.seq name items len) = .ok (env', o') ∧
+      Agree p { s with seqs := s.seqs ++ [supEntry name b] ++ sgAnons sg } env' o' b.anon := by
+  have hl := lookup_none_of_findE hA hf
+  have F := region_final hw.seqs R [supEntry name b]
+    (by intro e he; simp only [List.mem_singleton] at he; subst he; exact hname) (nodup_snoc hw.seqs.nodup hf)
+  have hext : Ext s.seqs (s.seqs ++ [supEntry name b] ++ sgAnons sg) := by
+    rw [List.append_assoc]; exact Ext.append _ _
+  have hAN : ∀ e ∈ sgAnons sg, e.const.length = e.len ∧ e.bases = [⟨e.name, false, e.len⟩] := by
+    intro e he
+    obtain ⟨hwf, hs, _, _⟩ := F.anons e he
+    exact ⟨(hwf.base hs).2.1, (hwf.base hs).1⟩
+  have hANsup : (sgAnons sg).filter (·.isSup) = [] :=
+    List.filter_eq_nil_iff.mpr (fun e he => by simp [(F.anons e he).2.1])
+  have hANbase : (sgAnons sg).filter (fun e => !e.isSup) = sgAnons sg :=
+    List.filter_eq_self.mpr (fun e he => by simp [(F.anons e he).2.1])
+  have hnucs : (sgSegs p sg).flatten = cnucs p b.bases := by rw [sg_flatten, R.nf.bases]
+  have hempty : (cnucs p b.bases = []) ↔ b.len = 0 := by
+    rw [← List.length_eq_zero_iff, cnucs_length, ← F.lenB]
+  refine ⟨_, _, by
+    simp only [denoteStmt, hl, Option.isSome_none, Bool.false_eq_true, if_false, region_denote hw hA hn R, bind,
+      Except.bind, pure, Except.pure]
+    rfl, ?_⟩
+  have hfindE : findE (s.seqs ++ [supEntry name b] ++ sgAnons sg) name = some (supEntry name b) := by
+    rw [List.append_assoc, findE_append_of_none hf]; simp [findE]
+  refine ⟨rfl, ?_, ?_, ?_, hA.strandsNone, ?_, ?_, ?_, ?_, ?_, ?_⟩
+  · intro n bd hb
+    simp only [List.lookup_append, Option.or_eq_some_iff] at hb
+    rcases hb with hb | ⟨hb1, hb2⟩
+    · exact agree_seqs_ext hw hA hext n bd hb
+    · simp only [List.lookup_cons, List.lookup_nil] at hb2
+      split at hb2
+      · rename_i heq
+        have hnn : n = name := by simpa using heq
+        subst hnn
+        simp only [Option.some.injEq] at hb2
+        subst hb2
+        refine ⟨supEntry n b, hfindE, hnucs.symm, rfl, fun _ => ?_⟩
+        show b.items.map _ = _
+        rw [R.nf.items, sg_segs F.segs]
+      · simp at hb2
+  · intro n hnn hb
+    simp only [List.lookup_append, Option.or_eq_none_iff] at hb
+    have hne' : n ≠ name := by
+      intro h; subst h; simp at hb
+    rw [List.append_assoc, findE_append_of_none (hA.seqsNone n hnn hb.1), findE_eq_none]
+    intro e he
+    simp only [List.cons_append, List.nil_append, List.mem_cons] at he
+    rcases he with rfl | he
+    · exact Ne.symm hne'
+    · obtain ⟨j, _, _, hj⟩ := (F.anons e he).2.2.2
+      rw [hj]; exact fun h => okName_ne_anon hnn j h.symm
+  · exact agree_strands_ext hw hA hext
+  · by_cases hz : b.len = 0 <;>
+      simp [hnucs, hempty, hz, withNewDomains_eq, St.baseSeqs, List.filter_append, hANbase, hA.domains, sgDoms,
+        anons_domains p _ (fun e he => (hAN e he).1)]
+  · by_cases hz : b.len = 0 <;>
+      simp [hnucs, hempty, hz, withNewDomains_eq, St.baseSeqs, List.filter_append, hANbase, hA.baseSeqs, sgDoms,
+        anons_baseSeqs p _ hAN]
+  · by_cases hz : b.len = 0 <;>
+      simp [hnucs, hempty, hz, withNewDomains_eq, St.supSeqs, List.filter_append, hANsup, hA.supSeqs, hnucs]
+  · by_cases hz : b.len = 0 <;> simp [hnucs, hempty, hz, withNewDomains_eq, hA.ostrands]
+  · by_cases hz : b.len = 0 <;> simp [hnucs, hempty, hz, withNewDomains_eq, hA.structs]
+  · by_cases hz : b.len = 0 <;> simp [hnucs, hempty, hz, withNewDomains_eq, hA.kinetics]
+
+theorem itemNucs_map {f : SeqE → SeqE} (hf : FlagOnly f) (p : String) (l : List SeqE) (i : ItemRef) :
+    itemNucs p (l.map f) i = itemNucs p l i := by
+  simp only [itemNucs, viewBases_map hf]
+
+theorem filter_map_flag (f : SeqE → SeqE) (q : SeqE → Bool) (hq : ∀ e, q (f e) = q e) (l : List SeqE) :
+    (l.map f).filter q = (l.filter q).map f := by
+  rw [List.filter_map]
+  congr 1
+  apply List.filter_congr
+  intro e _
+  exact hq e
+
+theorem map_flag_filters {β} (f : SeqE → SeqE) (hf : FlagOnly f) (q : SeqE → Bool) (hq : ∀ e, q (f e) = q e)
+    (G : SeqE → β) (hG : ∀ e, G (f e) = G e) (l : List SeqE) :
+    (((l.map f).filter q).filter (·.len != 0)).map G = ((l.filter q).filter (·.len != 0)).map G := by
+  rw [filter_map_flag f q hq, filter_map_flag f _ (fun e => by simp only [(hf e).2.2.1]), List.map_map]
+  apply List.map_congr_left
+  intro e _
+  exact hG e
+
+theorem step_strand {p : String} {s : St} {a : Nat} {env : Env} {o : Out} (hw : WF s a) (hA : Agree p s env o a)
+    {name : String} {dummy : Bool} {items : List SrcItem} (hn : itemNamesOk items = true)
+    (hf : findT s.strands name = none)
+    {len : Option Nat} {cs : List CItem} {b : Built} {sg : Segs} (R : RegionNF s a items len cs b sg) (hz : b.len ≠ 0) :
+    ∃ env' o', denoteStmt p env o (.strand dummy name items len) = .ok (env', o') ∧
+      Agree p { s with seqs := (s.seqs ++ sgAnons sg).map (markFn b.bases),
+                       strands := s.strands ++ [strandEntry name dummy b] } env' o' b.anon := by
+  have hl : env.strands.lookup name = none := by
+    cases h : env.strands.lookup name with
+    | none => rfl
+    | some x => obtain ⟨t, ht, _⟩ := hA.strands name x h; rw [hf] at ht; simp at ht
+  have F0 := region_final hw.seqs R [] (by simp) (by simpa using hw.seqs.nodup)
+  obtain ⟨_, hsegs, hanons, _, _, _, hlenB, _, _⟩ := F0
+  simp only [List.append_nil] at hsegs hanons
+  have hext : Ext s.seqs (s.seqs ++ sgAnons sg) := Ext.append _ _
+  have hflag := markFn_flagOnly b.bases
+  have hAN : ∀ e ∈ sgAnons sg, e.const.length = e.len ∧ e.bases = [⟨e.name, false, e.len⟩] := by
+    intro e he
+    obtain ⟨hwf, hs, _, _⟩ := hanons e he
+    exact ⟨(hwf.base hs).2.1, (hwf.base hs).1⟩
+  have hANsup : (sgAnons sg).filter (·.isSup) = [] :=
+    List.filter_eq_nil_iff.mpr (fun e he => by simp [(hanons e he).2.1])
+  have hANbase : (sgAnons sg).filter (fun e => !e.isSup) = sgAnons sg :=
+    List.filter_eq_self.mpr (fun e he => by simp [(hanons e he).2.1])
+  have hnucs : (sgSegs p sg).flatten = cnucs p b.bases := by rw [sg_flatten, R.nf.bases]
+  have hempty : ¬ (cnucs p b.bases = []) := by
+    rw [← List.length_eq_zero_iff, cnucs_length, ← hlenB]; exact hz
+  refine ⟨_, _, by
+    simp only [denoteStmt, hl, Option.isSome_none, Bool.false_eq_true, if_false, region_denote hw hA hn R, bind,
+      Except.bind, pure, Except.pure, hnucs, List.isEmpty_iff, hempty]
+    rfl, ?_⟩
+  have hsup : ∀ e, (markFn b.bases e).isSup = e.isSup := fun e => (hflag e).2.1
+  have hlen : ∀ e, (markFn b.bases e).len = e.len := fun e => (hflag e).2.2.1
+  refine ⟨rfl, ?_, ?_, ?_, ?_, ?_, ?_, ?_, ?_, ?_, ?_⟩
+  · intro n bd hb
+    obtain ⟨e, h1, h2, h3, h4⟩ := agree_seqs_ext hw hA hext n bd hb
+    refine ⟨markFn b.bases e, by rw [findE_map _ (fun e => (hflag e).1), h1]; rfl,
+      by rw [(hflag e).2.2.2.2.2]; exact h2, by rw [hsup]; exact h3, fun hb' => ?_⟩
+    rw [(hflag e).2.2.2.2.1, ← h4 hb']
+    exact List.map_congr_left (fun i _ => itemNucs_map hflag p _ i)
+  · intro n hnn hb
+    rw [findE_map _ (fun e => (hflag e).1), findE_append_of_none (hA.seqsNone n hnn hb), findE_eq_none.mpr]
+    · rfl
+    · intro e he
+      obtain ⟨j, _, _, hj⟩ := (hanons e he).2.2.2
+      rw [hj]; exact fun h => okName_ne_anon hnn j h.symm
+  · intro n x hb
+    simp only [List.lookup_append, Option.or_eq_some_iff] at hb
+    rcases hb with hb | ⟨hb1, hb2⟩
+    · obtain ⟨t, h1, h2, h3⟩ := agree_strands_ext hw hA hext n x hb
+      refine ⟨t, by rw [findT_append, h1]; rfl, h2, ?_⟩
+      rw [← h3]
+      exact List.map_congr_left (fun i _ => itemNucs_map hflag p _ i)
+    · simp only [List.lookup_cons, List.lookup_nil] at hb2
+      split at hb2
+      · rename_i heq
+        have hnn : n = name := by simpa using heq
+        subst hnn
+        simp only [Option.some.injEq] at hb2
+        subst hb2
+        refine ⟨strandEntry n dummy b, by rw [findT_append, hf]; simp [findT], rfl, ?_⟩
+        show b.items.map _ = _
+        rw [R.nf.items, sg_segs hsegs]
+        exact List.map_congr_left (fun i _ => itemNucs_map hflag p _ i)
+      · simp at hb2
+  · intro n hb
+    simp only [List.lookup_append, Option.or_eq_none_iff] at hb
+    have hne' : n ≠ name := by
+      intro h; subst h; simp at hb
+    rw [findT_append, hA.strandsNone n hb.1]
+    simp [findT, Ne.symm hne']
+  · show _ = ((((s.seqs ++ sgAnons sg).map (markFn b.bases)).filter (fun e => !e.isSup)).filter (·.len != 0)).map _
+    rw [map_flag_filters _ hflag _ (fun e => by rw [hsup]) _ (fun e => by rw [(hflag e).1, (hflag e).2.2.2.1])]
+    simp [withNewDomains_eq, St.baseSeqs, List.filter_append, hANbase, hA.domains, sgDoms,
+      anons_domains p _ (fun e he => (hAN e he).1)]
+  · show _ = ((((s.seqs ++ sgAnons sg).map (markFn b.bases)).filter (fun e => !e.isSup)).filter (·.len != 0)).map _
+    rw [map_flag_filters _ hflag _ (fun e => by rw [hsup]) _ (fun e => by rw [(hflag e).1, (hflag e).2.2.2.2.2])]
+    simp [withNewDomains_eq, St.baseSeqs, List.filter_append, hANbase, hA.baseSeqs, sgDoms, anons_baseSeqs p _ hAN]
+  · show _ = ((((s.seqs ++ sgAnons sg).map (markFn b.bases)).filter (fun e => e.isSup)).filter (·.len != 0)).map _
+    rw [map_flag_filters _ hflag _ hsup _ (fun e => by rw [(hflag e).1, (hflag e).2.2.2.2.2])]
+    simp [withNewDomains_eq, St.supSeqs, List.filter_append, hANsup, hA.supSeqs]
+  · simp [withNewDomains_eq, hA.ostrands, hnucs]
+  · simp [withNewDomains_eq, hA.structs]
+  · simp [withNewDomains_eq, hA.kinetics]
+theorem itemNucs_length {p : String} {l : List SeqE} (hent : ∀ e ∈ l, EntryWF l e) {i : ItemRef} (hi : ItemOk l i) :
+    (itemNucs p l i).length = i.len := by
+  obtain ⟨ie, h1, h2⟩ := hi
+  simp only [itemNucs, viewBases, h1, cnucs_length]
+  rw [view_lens (hent ie (findE_some h1).1), h2]
+
+theorem strand_lenB {l : List SeqE} (hent : ∀ e ∈ l, EntryWF l e) {t : StrandE} (ht : StrandWF l t) :
+    (t.bases.map (·.len)).sum = t.len := by
+  rw [ht.bases, ht.len]
+  have := ht.items
+  generalize t.items = its at this
+  induction its with
+  | nil => rfl
+  | cons i r ih =>
+    obtain ⟨ie, h1, h2⟩ := this i (by simp)
+    simp only [List.flatMap_cons, List.map_append, List.sum_append, List.map_cons, List.sum_cons,
+      ih (fun j hj => this j (by simp [hj]))]
+    simp only [viewBases, h1]
+    rw [view_lens (hent ie (findE_some h1).1), h2]
+
+theorem any_struct_name (p : String) (structs : List StructE) (name : String) (g : StructE → StructD)
+    (hg : ∀ e, (g e).name = p ++ e.name) :
+    (structs.map g).any (·.name == p ++ name) = (structs.find? (·.name == name)).isSome := by
+  induction structs with
+  | nil => rfl
+  | cons e r ih =>
+    simp only [List.map_cons, List.any_cons, List.find?_cons, hg, pfx_beq, ih]
+    cases h : (e.name == name) <;> simp
+
+theorem step_struct {p : String} {s : St} {a : Nat} {env : Env} {o : Out} (hw : WF s a) (hA : Agree p s env o a)
+    {opt : OptSrc} {name : String} {strands : List String} {domain : Bool} {text : List Char}
+    (hf : s.findStruct name = none) {objs : List StrandE} {dp full : List Char} {optv : Dec}
+    (hobjs : (∀ n ∈ strands, (findT s.strands n).isSome = true) ∧ objs = strands.filterMap (findT s.strands))
+    (hdp : Notation.compileStruct text = some dp)
+    (hfull : if domain then Notation.domainExpand dp (objs.map (fun o => o.items.map (·.len))) = some full else full = dp)
+    (hsz : Notation.sizesOk full (objs.map (·.len)) = true) (hopt : optDec opt = some optv) :
+    ∃ env' o', denoteStmt p env o (.struct opt name strands domain text) = .ok (env', o') ∧
+      Agree p { s with strands := s.strands.map (fun (o : StrandE) => if strands.contains o.name then { o with inStructure := true } else o),
+                       structs := s.structs ++ [⟨name, optv, strands, full, objs.flatMap (·.bases)⟩] } env' o' a := by
+  have hdup : o.structs.any (·.name == p ++ name) = false := by
+    rw [hA.structs, any_struct_name p s.structs name _ (fun _ => rfl)]
+    simp only [St.findStruct] at hf
+    rw [hf]; rfl
+  have hlk : ∀ n ∈ strands, ∃ t x, findT s.strands n = some t ∧ env.strands.lookup n = some x ∧
+      cnucs p t.bases = x.1 ∧ t.items.map (itemNucs p s.seqs) = x.2 := by
+    intro n hn
+    cases hl : env.strands.lookup n with
+    | none => have := hobjs.1 n hn; rw [hA.strandsNone n hl] at this; simp at this
+    | some x =>
+      obtain ⟨t, h1, h2, h3⟩ := hA.strands n x hl
+      exact ⟨t, x, h1, rfl, h2, h3⟩
+  have hmapM : strands.mapM (fun n => match env.strands.lookup n with
+      | some x => (Except.ok x : Except Denote.Err _) | none => throw Denote.Err.undefined) =
+      .ok (strands.map (fun n => (env.strands.lookup n).getD ([], []))) := by
+    apply mapM_ok_of_forall
+    intro n hn
+    obtain ⟨t, x, _, hx, _⟩ := hlk n hn
+    simp [hx]
+  have hlens1 : (strands.map (fun n => (env.strands.lookup n).getD ([], []))).map (fun x => x.2.map List.length) =
+      objs.map (fun o => o.items.map (·.len)) := by
+    rw [hobjs.2]
+    clear hmapM hfull hsz hobjs
+    induction strands with
+    | nil => rfl
+    | cons n r ih =>
+      obtain ⟨t, x, h1, hx, _, h3⟩ := hlk n (by simp)
+      simp only [List.map_cons, List.filterMap_cons, h1, hx, Option.getD_some,
+        ih (fun m hm => hlk m (by simp [hm]))]
+      congr 1
+      rw [← h3, List.map_map]
+      apply List.map_congr_left
+      intro i hi
+      exact itemNucs_length hw.seqs.entries ((hw.strands t (findT_some h1).1).items i hi)
+  have hlens2 : (strands.map (fun n => (env.strands.lookup n).getD ([], []))).map (fun x => x.1.length) =
+      objs.map (·.len) := by
+    rw [hobjs.2]
+    clear hmapM hfull hsz hobjs hlens1
+    induction strands with
+    | nil => rfl
+    | cons n r ih =>
+      obtain ⟨t, x, h1, hx, h2, _⟩ := hlk n (by simp)
+      simp only [List.map_cons, List.filterMap_cons, h1, hx, Option.getD_some,
+        ih (fun m hm => hlk m (by simp [hm]))]
+      congr 1
+      rw [← h2, cnucs_length, strand_lenB hw.seqs.entries (hw.strands t (findT_some h1).1)]
+  have hoptA := opt_agree opt optv hopt
+  have hstep : denoteStmt p env o (.struct opt name strands domain text) =
+      .ok (env, { o with structs := o.structs ++ [⟨p ++ name, strands.map (p ++ ·), full, optD optv⟩] }) := by
+    simp only [denoteStmt, hdup, Bool.false_eq_true, if_false, bind, Except.bind]
+    generalize hm : List.mapM (m := Except Denote.Err) (β := List Nuc × List (List Nuc)) _ strands = m
+    have hm' : m = .ok (strands.map (fun n => (env.strands.lookup n).getD ([], []))) := by
+      rw [← hm]; exact hmapM
+    subst hm'
+    simp only [hdp, pure, Except.pure, hlens1, hlens2, hsz, Bool.not_true, Bool.false_eq_true, if_false, hoptA.1]
+    cases domain with
+    | false =>
+      simp only [Bool.false_eq_true, if_false] at hfull ⊢
+      subst hfull
+      simp only [hsz, Bool.not_true, Bool.false_eq_true, if_false]
+    | true =>
+      simp only [if_true] at hfull ⊢
+      simp only [hfull, hsz, Bool.not_true, Bool.false_eq_true, if_false]
+  refine ⟨_, _, hstep, ?_⟩
+  have hg : ∀ t : StrandE, ((fun (o : StrandE) => if strands.contains o.name then { o with inStructure := true } else o) t).name = t.name := by
+    intro t; simp only; split <;> rfl
+  refine ⟨hA.anon, hA.seqs, hA.seqsNone, ?_, ?_, hA.domains, hA.baseSeqs, hA.supSeqs, ?_, ?_, hA.kinetics⟩
+  · intro n x hx
+    obtain ⟨t, h1, h2, h3⟩ := hA.strands n x hx
+    refine ⟨_, by rw [findT_map _ hg, h1]; rfl, ?_, ?_⟩
+    · simp only; split <;> exact h2
+    · simp only; split <;> exact h3
+  · intro n hx
+    rw [findT_map _ hg, hA.strandsNone n hx]; rfl
+  · simp only [hA.ostrands, List.map_map]
+    apply List.map_congr_left
+    intro t _
+    simp only [Function.comp]
+    split <;> rfl
+  · simp [hA.structs, optOfDec, hoptA.2]
+
+theorem kinOf_eq (p : String) {low high : Option String} {lo hi : Option Dec} (ins outs : List String) (nm : String)
+    (hlo : decOpt low = some lo) (hhi : decOpt high = some hi) :
+    kinOf p low high ins outs = .ok (kinD p ⟨nm, ins, outs, lo, hi⟩) := by
+  unfold kinOf kinD
+  rcases low with _ | tl <;> rcases high with _ | th
+  · simp only [decOpt, Option.some.injEq] at hlo hhi
+    subst hlo hhi
+    rfl
+  · simp only [decOpt, Option.some.injEq, Option.map_eq_some_iff] at hlo hhi
+    obtain ⟨d, hd, rfl⟩ := hhi
+    subst hlo
+    simp only [hd, bind, Except.bind, pure, Except.pure]
+    split <;> rfl
+  · simp only [decOpt, Option.some.injEq, Option.map_eq_some_iff] at hlo hhi
+    obtain ⟨d, hd, rfl⟩ := hlo
+    subst hhi
+    simp only [hd, bind, Except.bind, pure, Except.pure]
+    split <;> rfl
+  · simp only [decOpt, Option.some.injEq, Option.map_eq_some_iff] at hlo hhi
+    obtain ⟨d, hd, rfl⟩ := hlo
+    obtain ⟨d2, hd2, rfl⟩ := hhi
+    simp only [hd, hd2, bind, Except.bind, pure, Except.pure]
+    split <;> split <;> rfl
+
+theorem step_kinetic {p : String} {s : St} {a : Nat} {env : Env} {o : Out} (hA : Agree p s env o a)
+    {low high : Option String} {ins outs : List String} {lo hi : Option Dec}
+    (hall : (ins ++ outs).all (fun n => (s.findStruct n).isSome) = true)
+    (hlo : decOpt low = some lo) (hhi : decOpt high = some hi) :
+    ∃ env' o', denoteStmt p env o (.kinetic low high ins outs) = .ok (env', o') ∧
+      Agree p { s with kins := s.kins ++ [⟨"Kin" ++ toString s.kins.length, ins, outs, lo, hi⟩] } env' o' a := by
+  have hall' : (ins ++ outs).all (fun n => o.structs.any (·.name == p ++ n)) = true := by
+    rw [List.all_eq_true] at hall ⊢
+    intro n hn
+    rw [hA.structs, any_struct_name p s.structs n _ (fun _ => rfl)]
+    exact hall n hn
+  refine ⟨_, _, by
+    simp only [denoteStmt, hall', Bool.not_true, Bool.false_eq_true, if_false,
+      kinOf_eq p ins outs ("Kin" ++ toString s.kins.length) hlo hhi, bind, Except.bind, pure, Except.pure]
+    rfl, ?_⟩
+  exact ⟨hA.anon, hA.seqs, hA.seqsNone, hA.strands, hA.strandsNone, hA.domains, hA.baseSeqs, hA.supSeqs, hA.ostrands,
+    hA.structs, by simp [hA.kinetics]⟩
+/-- one statement, both sides -/
+theorem step_agree {p : String} {s : St} {a : Nat} {env : Env} {o : Out} {stmt : Stmt} {s' : St} {a' : Nat}
+    (hw : WF s a) (hA : Agree p s env o a) (hok : stmtNamesOk stmt = true) (h : addStmt s a stmt = .ok (s', a')) :
+    ∃ env' o', denoteStmt p env o stmt = .ok (env', o') ∧ Agree p s' env' o' a' ∧ s'.pfx = s.pfx := by
+  cases stmt with
+  | seq name items len =>
+    simp only [stmtNamesOk, Bool.and_eq_true] at hok
+    by_cases hb : ∃ text, items = [.nuc text]
+    · obtain ⟨text, rfl⟩ := hb
+      obtain ⟨hf, l, c, hr, rfl, rfl⟩ := addStmt_seq_base h
+      obtain ⟨env', o', h1, h2⟩ := step_seq_base hw hA hok.1 hf hr
+      exact ⟨env', o', h1, h2, rfl⟩
+    · obtain ⟨hf, cs, b, hc, hbd, rfl, rfl⟩ := addStmt_seq_sup (fun t ht => hb ⟨t, ht⟩) h
+      obtain ⟨sg, R⟩ := region_nf hw.seqs.entries hc hbd
+      obtain ⟨env', o', h1, h2⟩ := step_seq_sup hw hA hok.1 hok.2 (fun t ht => hb ⟨t, ht⟩) hf R
+      rw [(WF_seq_sup hw hok.1 hf R).1]
+      exact ⟨env', o', h1, h2, rfl⟩
+  | strand dummy name items len =>
+    simp only [stmtNamesOk] at hok
+    obtain ⟨hf, cs, b, hc, hbd, hz, rfl, rfl⟩ := addStmt_strand h
+    obtain ⟨sg, R⟩ := region_nf hw.seqs.entries hc hbd
+    obtain ⟨env', o', h1, h2⟩ := step_strand (dummy := dummy) hw hA hok hf R hz
+    rw [(WF_strand (dummy := dummy) hw hf R).1]
+    exact ⟨env', o', h1, h2, rfl⟩
+  | struct opt name strands domain text =>
+    obtain ⟨hf, objs, dp, full, optv, hobjs, hdp, hfull, hsz, hopt, rfl, rfl⟩ := addStmt_struct h
+    obtain ⟨env', o', h1, h2⟩ := step_struct hw hA hf (strands_mapM hobjs) hdp hfull hsz hopt
+    exact ⟨env', o', h1, h2, rfl⟩
+  | kinetic low high ins outs =>
+    obtain ⟨hall, lo, hi, hlo, hhi, rfl, rfl⟩ := addStmt_kinetic h
+    obtain ⟨env', o', h1, h2⟩ := step_kinetic hA hall hlo hhi
+    exact ⟨env', o', h1, h2, rfl⟩
+
+theorem addStmts_agree {p : String} {stmts : List Stmt} : ∀ {s : St} {a : Nat} {env : Env} {o : Out} {s' : St} {a' : Nat},
+    WF s a → Agree p s env o a → (∀ st ∈ stmts, stmtNamesOk st = true) → addStmts s a stmts = .ok (s', a') →
+    ∃ env' o', denoteStmts p stmts env o = .ok (env', o') ∧ WF s' a' ∧ Agree p s' env' o' a' ∧ s'.pfx = s.pfx := by
+  induction stmts with
+  | nil =>
+    intro s a env o s' a' hw hA _ h
+    simp only [addStmts, Except.ok.injEq, Prod.mk.injEq] at h
+    obtain ⟨rfl, rfl⟩ := h
+    exact ⟨env, o, rfl, hw, hA, rfl⟩
+  | cons st r ih =>
+    intro s a env o s' a' hw hA hok h
+    simp only [addStmts] at h
+    cases h1 : addStmt s a st with
+    | error e => simp [h1] at h
+    | ok v =>
+      obtain ⟨s1, a1⟩ := v
+      simp only [h1] at h
+      obtain ⟨env1, o1, hd, hA1, hp1⟩ := step_agree hw hA (hok st (by simp)) h1
+      obtain ⟨hw1, _⟩ := addStmt_WF hw (hok st (by simp)) h1
+      obtain ⟨env', o', hd', hw', hA', hp'⟩ := ih hw1 hA1 (fun x hx => hok x (by simp [hx])) h
+      exact ⟨env', o', by simp only [denoteStmts, hd]; exact hd', hw', hA', hp'.trans hp1⟩
+/-! ### the alphabet of the written constraints -/
+
+def partsCodesOk (tbl : CodeTable) (parts : List (Mult × Char)) : Bool := parts.all (fun mc => tbl.isCode mc.2)
+
+def itemCodesOk (tbl : CodeTable) (items : List SrcItem) : Bool :=
+  items.all fun
+    | .nuc text => partsCodesOk tbl (parseQuoted text)
+    | _ => true
+
+/-- every code letter written in the statement is a code of the table -/
+def stmtCodesOk (tbl : CodeTable) : Stmt → Bool
+  | .seq _ items _ => itemCodesOk tbl items
+  | .strand _ _ items _ => itemCodesOk tbl items
+  | _ => true
+
+theorem mem_expand {w : Nat} {parts : List (Mult × Char)} {ch : Char} (h : ch ∈ expand w parts) :
+    ∃ mc ∈ parts, mc.2 = ch := by
+  induction parts with
+  | nil => simp [expand] at h
+  | cons q r ih =>
+    obtain ⟨m, c⟩ := q
+    cases m with
+    | num n =>
+      simp only [expand, List.mem_append, List.mem_replicate] at h
+      rcases h with ⟨_, rfl⟩ | h
+      · exact ⟨(Mult.num n, ch), by simp, rfl⟩
+      · obtain ⟨mc, h1, h2⟩ := ih h; exact ⟨mc, by simp [h1], h2⟩
+    | wild =>
+      simp only [expand, List.mem_append, List.mem_replicate] at h
+      rcases h with ⟨_, rfl⟩ | h
+      · exact ⟨(Mult.wild, ch), by simp, rfl⟩
+      · obtain ⟨mc, h1, h2⟩ := ih h; exact ⟨mc, by simp [h1], h2⟩
+
+theorem expand_codes {tbl : CodeTable} {parts : List (Mult × Char)} (h : partsCodesOk tbl parts = true) (w : Nat) :
+    (expand w parts).all tbl.isCode = true := by
+  rw [List.all_eq_true]
+  intro ch hch
+  obtain ⟨mc, h1, rfl⟩ := mem_expand hch
+  exact (List.all_eq_true.mp h) mc h1
+
+theorem resolve_codes {tbl : CodeTable} {parts : List (Mult × Char)} (h : partsCodesOk tbl parts = true)
+    {len : Option Nat} {l : Nat} {c : List Char} (hr : resolve parts len = .ok (l, c)) : c.all tbl.isCode = true := by
+  unfold resolve at hr
+  split at hr
+  · simp at hr
+  · split at hr
+    · split at hr
+      · split at hr
+        · simp only [Except.ok.injEq, Prod.mk.injEq] at hr; rw [← hr.2]; exact expand_codes h _
+        · simp at hr
+      · simp only [Except.ok.injEq, Prod.mk.injEq] at hr; rw [← hr.2]; exact expand_codes h _
+    · split at hr
+      · simp at hr
+      · split at hr
+        · simp at hr
+        · simp only [Except.ok.injEq, Prod.mk.injEq] at hr; rw [← hr.2]; exact expand_codes h _
+
+def CodesInv (tbl : CodeTable) (s : St) : Prop := ∀ e ∈ s.seqs, e.const.all tbl.isCode = true
+
+theorem partsCodesOk_explicit {tbl : CodeTable} {parts : List (Mult × Char)} (h : partsCodesOk tbl parts = true) (x : Nat) :
+    partsCodesOk tbl (explicit x parts) = true := by
+  induction parts with
+  | nil => rfl
+  | cons q r ih =>
+    obtain ⟨m, c⟩ := q
+    simp only [partsCodesOk, List.all_cons, Bool.and_eq_true] at h ih ⊢
+    cases m <;> simp [explicit, h.1, ih h.2, partsCodesOk]
+
+theorem anons_codes {tbl : CodeTable} {s : St} {a : Nat} {items : List SrcItem} {len : Option Nat} {cs : List CItem}
+    {b : Built} {sg : Segs} (R : RegionNF s a items len cs b sg) (hc : itemCodesOk tbl items = true) :
+    ∀ e ∈ sgAnons sg, e.const.all tbl.isCode = true := by
+  intro e he
+  obtain ⟨y, hy, hey⟩ := mem_sgAnons he
+  obtain ⟨j, q, _, _, hq, rfl⟩ := mem_anonsFrom hey
+  obtain ⟨text, ht, hp⟩ := R.nucs q (by simp only [sgItems, List.mem_flatMap]; exact ⟨y, hy, hq⟩)
+  have htext : partsCodesOk tbl (parseQuoted text) = true := by
+    have := (List.all_eq_true.mp hc) _ ht
+    simpa using this
+  simp only [mkAnon]
+  rcases hp with rfl | ⟨x, rfl⟩
+  · exact expand_codes htext 0
+  · exact expand_codes (partsCodesOk_explicit htext x) 0
+
+theorem addStmt_codes {tbl : CodeTable} {s : St} {a : Nat} {stmt : Stmt} {s' : St} {a' : Nat} (hw : WF s a)
+    (hci : CodesInv tbl s) (hok : stmtNamesOk stmt = true) (hco : stmtCodesOk tbl stmt = true)
+    (h : addStmt s a stmt = .ok (s', a')) : CodesInv tbl s' := by
+  cases stmt with
+  | seq name items len =>
+    simp only [stmtNamesOk, Bool.and_eq_true] at hok
+    simp only [stmtCodesOk] at hco
+    by_cases hb : ∃ text, items = [.nuc text]
+    · obtain ⟨text, rfl⟩ := hb
+      obtain ⟨hf, l, c, hr, rfl, rfl⟩ := addStmt_seq_base h
+      intro e he
+      simp only [List.mem_append, List.mem_singleton] at he
+      rcases he with he | rfl
+      · exact hci e he
+      · exact resolve_codes (by simpa [itemCodesOk] using hco) hr
+    · obtain ⟨hf, cs, b, hc, hbd, rfl, rfl⟩ := addStmt_seq_sup (fun t ht => hb ⟨t, ht⟩) h
+      obtain ⟨sg, R⟩ := region_nf hw.seqs.entries hc hbd
+      rw [(WF_seq_sup hw hok.1 hf R).1]
+      intro e he
+      simp only [List.mem_append, List.mem_singleton] at he
+      rcases he with (he | rfl) | he
+      · exact hci e he
+      · rfl
+      · exact anons_codes R hco e he
+  | strand dummy name items len =>
+    simp only [stmtCodesOk] at hco
+    obtain ⟨hf, cs, b, hc, hbd, hz, rfl, rfl⟩ := addStmt_strand h
+    obtain ⟨sg, R⟩ := region_nf hw.seqs.entries hc hbd
+    rw [(WF_strand (dummy := dummy) hw hf R).1]
+    intro e he
+    simp only [List.mem_map, List.mem_append] at he
+    obtain ⟨e0, he0, rfl⟩ := he
+    rw [(markFn_flagOnly b.bases e0).2.2.2.1]
+    rcases he0 with he0 | he0
+    · exact hci e0 he0
+    · exact anons_codes R hco e0 he0
+  | struct opt name strands domain text =>
+    obtain ⟨_, objs, dp, full, optv, _, _, _, _, _, rfl, rfl⟩ := addStmt_struct h
+    exact hci
+  | kinetic low high ins outs =>
+    obtain ⟨_, lo, hi, _, _, rfl, rfl⟩ := addStmt_kinetic h
+    exact hci
 end Pepper.Comp
